@@ -94,6 +94,16 @@ Theorem C05_holding_duration :
 Proof. exact storage_holding_duration. Qed.
 Print Assumptions C05_holding_duration.
 
+(* ... and with a start level above zero the statement is FALSE of the faithful model (known finding of the unchanged tree,
+   reported as KNOWN-FINDING by the check): all rows satisfied, indicators binary, level above zero at every step of a window. *)
+Theorem C05_holding_duration_with_start_level_refuted :
+  exists p n m dt md x i js, n = List.length dt /\ sp_inflow p == 0 /\ storage_ctor_ok p = true /\ sp_max_dur p = Some md /\
+    Forall (row_ok x) (md_rows1 m n (st_rows p n dt) ++ flat_map (md_win m dt md) (seq 0 n)) /\
+    (forall t, (t < n)%nat -> nth (m + t) x 0 == 0 \/ nth (m + t) x 0 == 1) /\
+    (i < n)%nat /\ md_js dt md i = Some js /\ forall j, In j js -> 0 < level p n dt x (i + j).
+Proof. exact holding_duration_start_level_refuted. Qed.
+Print Assumptions C05_holding_duration_with_start_level_refuted.
+
 (* no simultaneous charge and discharge when the mode variable is binary *)
 Theorem C05_no_simultaneous :
   forall name n cp ct I a x i, (i < n)%nat ->
